@@ -469,6 +469,11 @@ class Interp:
         v = env.lookup(name)
         if v is not None:
             return v
+        if self.spec and getattr(self, "ghost_env", None) is not None:
+            # ghost state is visible to the specifications (loop invariants) of functions interpreted inline
+            v = self.ghost_env.lookup(name)
+            if v is not None:
+                return v
         v = self.ver.module_name(env.module, name, self)
         if v is not None:
             return v
@@ -1336,6 +1341,11 @@ class Interp:
         """shape a returned value after the declared return type (typed empties, optionals)"""
         if isinstance(t, TTuple) and isinstance(v, VTuple) and len(v.items) == len(t.elems):
             return VTuple([self.coerce_value(x, et) for x, et in zip(v.items, t.elems)])
+        if t is TDyn and not isinstance(v, VDyn):
+            try:
+                return VDyn(D.to_dyn(v))
+            except TypeError:
+                return v
         if isinstance(v, VEmptyList) and isinstance(t, TList):
             return VSeq(z3.K(z3.IntSort(), self.default_of(t.elem)), z3.IntVal(0), t.elem, t.kind)
         if isinstance(v, VEmptySet) and isinstance(t, TSet):
